@@ -14,7 +14,7 @@ def crit_of(opts):
     return "size" if "-size" in opts else "length" if "-length" in opts else "gas"
 
 
-def cost(e, seq, crit):
+def cost(e, seq, crit, cap=None):
     tot = 0
     for i in seq:
         if i == "NOP":
@@ -22,7 +22,8 @@ def cost(e, seq, crit):
         if crit == "length":
             tot += 1
         elif i in e["costs"]:
-            tot += e["costs"][i][0 if crit == "gas" else 1]
+            v = e["costs"][i][0 if crit == "gas" else 1]
+            tot += min(v, cap) if cap is not None and crit == "size" else v
         elif i == "POP":
             tot += 2 if crit == "gas" else 1
         else:
@@ -122,12 +123,16 @@ def run(tier):
                 c["soft-constraints-of-unknown-shape"] += 1
                 ds = []
                 break
-            ds.append((sc - cost(e, m, crit), m, sc))
+            ds.append((sc - cost(e, m, crit), m, sc, sc - cost(e, m, crit, cap=5)))
         if len(ds) > 1:
             c["pricing-instances"] += 1
-            if len({d for d, _, _ in ds}) > 1:
+            if len({d[0] for d in ds}) > 1 and len({d[3] for d in ds}) == 1:
+                # exactly the cap of the size weights at 5 bytes (synthesis_full_encoding: min(size_cost, 5))
+                violations.append({"kind": "size-weights-capped-at-5", "input": plain, "options": t["opts"],
+                                   "what": "%s with %s: under -size a PUSH wider than 4 bytes is priced 5; soft cost minus byte size differs between models %s" % (plain, t["opts"], [(d[0], list(d[1])) for d in ds][:3])})
+            elif len({d[0] for d in ds}) > 1:
                 violations.append({"kind": "soft-constraints-misprice-a-model", "input": plain, "options": t["opts"],
-                                   "what": "%s with %s (%s): soft cost minus true cost is not constant over models: %s" % (plain, t["opts"], crit, [(d, list(m)) for d, m, _ in ds][:4])})
+                                   "what": "%s with %s (%s): soft cost minus true cost is not constant over models: %s" % (plain, t["opts"], crit, [(d[0], list(d[1])) for d in ds][:4])})
     for key, vals in optimum_by_spec.items():
         if len(vals) > 1:
             violations.append({"kind": "optimum-depends-on-pruning-options", "input": key[0], "what": "optimal %s cost of %s differs across option sets: %s" % (key[1], key[0], sorted(vals))})
